@@ -46,6 +46,9 @@ def parse(t: T, cond=()) -> Tuple[T, List[Stage]]:
         if t.a[1] == elemvar and conds:
             for c in conds:
                 stages.append(Stage("filter", T("comp-pred", (elemvar, c)), tuple(cond)))
+            if t.a[0] != "gen":
+                # [x for x in stream if p(x)]: the filter, and the whole stream read before the first element is handed on
+                stages.append(Stage("call:" + t.a[0], None, tuple(cond)))
         else:
             stages.append(Stage("genexp" if t.a[0] == "gen" else "comp", t, tuple(cond)))
         return base, stages
@@ -83,9 +86,19 @@ LANG_CALLS = {"isinstance", "str", "int", "any", "all", "filter"}
 def normalise(t: T, bound_name: str = "x") -> T:
     """Canonical form of a predicate body: bound variable renamed, negations pushed inward, operands of
     commutative operators sorted."""
+    def _boolean(y: T) -> bool:
+        return y.op in ("cmp", "bool", "not") or (y.op == "call" and y.a[0] in (T("builtin", ("isinstance",)), T("builtin", ("bool",)),
+                                                                               T("builtin", ("any",)), T("builtin", ("all",))))
+
     def go(x: T, neg: bool) -> T:
         if x.op == "not":
             return go(x.a[0], not neg)
+        if x.op == "cmp" and x.a[0] in ("==", "!=", "is", "is not"):
+            # `isinstance(r, C) == False` is `not isinstance(r, C)` (a truth value compared with a truth value)
+            for b_, y_ in ((x.a[1], x.a[2]), (x.a[2], x.a[1])):
+                if b_.op == "const" and isinstance(b_.a[0], bool) and _boolean(y_):
+                    same = (x.a[0] in ("==", "is")) == b_.a[0]
+                    return go(y_, neg if same else not neg)
         if x.op == "bool":
             op = x.a[0]
             items = [go(i, neg) for i in x.a[1]]
@@ -106,6 +119,9 @@ def normalise(t: T, bound_name: str = "x") -> T:
                 op = NEG[op]
             if op in COMMUTATIVE_CMP and sym.pretty(l) > sym.pretty(r):
                 l, r = r, l
+            if op in ("in", "not in") and r.op in ("tuple", "list", "set") and not any(i.op == "star" for i in r.a[0]):
+                # membership in a literal does not depend on the order (or kind) of the literal
+                r = T("tuple", (tuple(sorted(set(r.a[0]), key=sym.pretty)),))
             return T("cmp", (op, l, r))
         v = val(x)
         return T("not", (v,)) if neg else v
